@@ -26,6 +26,7 @@ def run_history(ctx):
     for i in range(60 if ctx.tier == "quick" else 800):
         shared = suite_o.PersistentOps()
         shared_metrics = FMMetrics()
+        direct_metrics = FMMetrics()
         # models that look alike (same names in other positions, equal-but-different models)
         base = g.model(g.rng.choice([1, 3, 5, 8]), kinds=kinds, ctc_depth=2, abstract=True)
         bn = [f["name"] for f in spec.spec_features(base["root"])]
@@ -72,6 +73,9 @@ def run_history(ctx):
                 rep2 = suite_m.canon_impl(FMMetrics().execute(fm).get_result())
                 if rep != rep2:
                     st.oracle_fail(f"seq{j}", req, "metrics-depend-on-earlier-executions", "")
+                if suite_m.canon_impl(direct_metrics.calculate_metamodel_metrics(fm)) != rep2:
+                    st.oracle_fail(f"seq{j}", req, "metrics-depend-on-earlier-executions",
+                                   "calculate_metamodel_metrics on one object for every model")
                 if repr(rep) != alone.get("metrics"):
                     st.oracle_fail(f"seq{j}", req, "metrics-differ-from-a-process-that-analysed-nothing-before", "")
             except Exception as e:  # noqa: BLE001
